@@ -287,7 +287,7 @@ class BlockBaseError(BaseException):
 
 HEADER_NAMES = ["X-A", "x-a", "X-a", "X-Test", "x-test", "X-TEST", "Authorization", "authorization", "User-Agent", "user-agent",
                 "USER-AGENT", "Content-Length", "content-length", "Content-Type", "CONTENT-TYPE", "X-Num", "Accept-Language"]
-HEADER_VALUES = ["v1", "v2", "v3", "", "a b", 0, 5, 1.5, True, False, None, "ünï", [1, 2], [], {"tuple": ["gzip"]}, {"tuple": []},
+HEADER_VALUES = ["v1", "v2", "v3", "", "a b", 0, 5, 1.5, True, False, None, "ünï", "rack 12,  row 3", "a\tb\tc", "x   y", [1, 2], [], {"tuple": ["gzip"]}, {"tuple": []},
                  {"tuple": ["a", "b"]}]
 
 
@@ -699,7 +699,7 @@ def gen_c17(rng):
         return {"mode": "client", "family": rng.choice(["tcp", "unix"]), "path": path, "query": query,
                 "content_type": rng.choice(["application/json-rpc", "application/json", "application/jsonrequest"]),
                 "backend": backend, "param": gen_text(rng), "result": gen_text(rng, around),
-                "encoding": rng.choice(["identity", "identity", "gzip", "chunked"]),
+                "encoding": rng.choice(["identity", "identity", "gzip", "chunked", "gzip-multi"]),
                 "seg": rng.choice(["whole", "random", "small"]), "http10": rng.random() < 0.5,
                 "style": rng.choice(["call", "call", "notify", "batch"]), "indent": rng.choice([None, None, None, 1200]),
                 # an earlier exchange on the same proxy is cut in the middle of a large body (or reset): the judged one must not see its remains
@@ -709,7 +709,7 @@ def gen_c17(rng):
         return {"mode": "server", "kind": rng.choice(["plain", "pooled"]), "family": rng.choice(["tcp", "unix"]),
                 "chunk": chunk, "backend": backend, "param": gen_text(rng, rng.choice([None, 40, 7, 64])),
                 "content_type": rng.choice(["application/json-rpc", "application/json"]),
-                "seg": rng.choice(["whole", "random", "small"])}
+                "seg": rng.choice(["whole", "random", "small"]), "unbuffered": rng.random() < 0.3}
     if k < 0.95:
         return {"mode": "cgi", "backend": backend, "param": gen_text(rng), "content_type": rng.choice(["application/json-rpc", "application/json"])}
     return {"mode": "scheme", "scheme": rng.choice(["ftp", "ws", "file", "", "unix+ftp", "unix+https", "gopher", "httpx", "unix+", "mailto", "svn+http", "git+https", "tcp+http",
@@ -831,7 +831,17 @@ class C17Run(object):
         self.cfg = cfg
         unix = p["family"] == "unix"
         cls = js.PooledJSONRPCServer if p["kind"] == "pooled" else js.SimpleJSONRPCServer
-        srv = cls("/sim/sock" if unix else ("sim", 0), logRequests=False,
+        handler = js.SimpleJSONRPCRequestHandler
+        if p.get("unbuffered"):
+            class Unbuffered(js.SimpleJSONRPCRequestHandler):
+                rbufsize = 0  # a StreamRequestHandler knob: the body is read as the segments arrive
+
+                def log_message(self, format, *args):
+                    pass
+
+            handler = Unbuffered
+            s.probe("unbuffered_request_stream")
+        srv = cls("/sim/sock" if unix else ("sim", 0), requestHandler=handler, logRequests=False,
                   address_family=socket.AF_UNIX if unix else socket.AF_INET, config=cfg)
         got = []
 
@@ -1082,7 +1092,7 @@ class C17Scenario(object):
                         q = copy.deepcopy(p)
                         q[key] = cand
                         yield q
-        for key, val in (("pre_fault", None), ("seg", "whole"), ("encoding", "identity"), ("family", "tcp"), ("backend", "ascii"), ("http10", True),
+        for key, val in (("pre_fault", None), ("unbuffered", False), ("seg", "whole"), ("encoding", "identity"), ("family", "tcp"), ("backend", "ascii"), ("http10", True),
                          ("query", ""), ("path", "/"), ("style", "call"), ("kind", "plain"), ("content_type", "application/json-rpc")):
             if key in p and p[key] != val:
                 q = copy.deepcopy(p)
